@@ -633,7 +633,12 @@ def gen_c09(seed, shipped, tier="quick"):
                         j.append("node")  # this thread enters through scan_node() on a node it built
                 bulky = any(len(corpus[j[0]]) > 3000 for j in jobs)
                 n_all = sum(1 for o in ops if o[0] == "par_scan" and o[3].get("scope") == "all")
-                ops.append(["par_scan", s, jobs, sched_spec(rng, use_shipped, no_all=(use_shipped and (bulky or n_all >= 1)) or n_all >= 2)])
+                spec = sched_spec(rng, use_shipped, no_all=bulky or (use_shipped and n_all >= 1) or n_all >= 2)
+                if any(len(corpus[j[0]]) > 100000 for j in jobs):
+                    spec["scope"] = "engine"  # line-tracing the decoders over a megabyte costs minutes
+                    if spec["policy"] == "rw":
+                        spec["quantum"] = rng.choice([1, 2, 3, 5, 10, 30, 100])
+                ops.append(["par_scan", s, jobs, spec])
                 nres += nt
             elif r < 0.72 and nres:
                 ops.append(["view", rng.randrange(64)])
